@@ -121,6 +121,13 @@ static void vi_drawfix(int r1, int r2, int n, int preview)
 {
 	int dis = n - (r2 - r1 + 1);
 	int i;
+	if (!preview && r1 < xtop) {	/* begins above the window: redraw it all */
+		term_record();
+		for (i = xtop; i < xtop + xrows; i++)
+			vi_drawrow(i);
+		term_commit();
+		return;
+	}
 	if (preview && r1 < xtop)
 		xtop = r1;
 	r1 = MIN(MAX(r1, xtop), xtop + xrows - 1);
